@@ -37,6 +37,22 @@ def run(tier):
     fsh = 2 if quick else 8
     traces += c.drive(exes["drv_prfree"], [["@OUT", 100 if quick else 700, vlib.SEED * 100 + i] for i in range(fsh)],
                       tag="free", timeout=2400, env={"TSAN_OPTIONS": "halt_on_error=1:exitcode=66"})
+    # 4. unbounded ranges: inductive invariants of the claim protocol discharged by Apalache (any Start..End, any number of
+    #    steps; fixed worker count / block size).  About the specification only; thorough tier.
+    if not quick:
+        import os as _os
+        ind = _os.path.join(vlib.VERIF, "spec", "ParallelRange", "ind")
+        jobs = [("PRInd.tla", {"T == 1..3 ": "T == 1..%d " % n}, dict(workers=n, block=1)) for n in (2, 3, 5)]
+        jobs += [("PRIndBlocks.tla", {"BLK == 2": "BLK == %d" % b, "T == 1..3": "T == 1..%d" % n}, dict(workers=n, block=b))
+                 for (b, n) in ((2, 3), (3, 3), (4, 2))]
+        res = vlib.run_parallel([(lambda m=m, sb=sb: vlib.apalache_inductive(_os.path.join(ind, m), sb)) for m, sb, _ in jobs], jobs=3)
+        proofs = [dict(module=m, **meta, **r) for (m, _, meta), r in zip(jobs, res)]
+        c.extra["inductive_invariants_apalache"] = proofs
+        c.extra["obligations"] = 2 * len(proofs)
+        c.extra["discharged"] = sum((p["base"] == "NoError") + (p["step"] == "NoError") for p in proofs)
+        for p in proofs:
+            if not p["ok"]:
+                vlib.log("note: Apalache obligation not discharged for %s: %s" % (p["module"], p))
     bads = c.validate("ParallelRange", "Trace_ParallelRange", traces, timeout=2400, xmx="6g")
     c.judge(bads)
     c.exhaustive = True
